@@ -425,6 +425,15 @@ def run(ctx):
                [addn('f', 'BooleanField'), cf('f', None, 'false', ('null', 'false'))],
                [cf('b', None, None, ('max_length', '50')), cf('b', None, '""', ('null', 'false'))],
                [cf('b', None, None, ('db_index', 'true')), cf('b', None, '""', ('null', 'false'))]]
+    # ... and a chain of renames of a field added in the batch, an explicit column name on a link that is not the last
+    rnc = lambda old, new, col: {'t': 'RenameField', 'model': 'Alpha', 'old': old, 'new': new, 'db_column': col,
+                                 'db_table': None}
+    addq = {'t': 'AddField', 'model': 'Alpha', 'field': 'q', 'ftype': 'IntegerField', 'initial': None,
+            'attrs': [['null', 'true']]}
+    family += [[addq, rnc('q', 'q2', 'legacy_q'), rnc('q2', 'q3', None)],
+               [addq, rnc('q', 'q2', 'legacy_q'), rnc('q2', 'q3', 'newer_q')],
+               [addq, rnc('q', 'q2', None), rnc('q2', 'q3', 'legacy_q'), rnc('q3', 'q4', None)],
+               [rnc('b', 'b2', 'legacy_b'), rnc('b2', 'b3', None)]]
     seqs = family + seqs
     copies = bool(ctx.variant.get('optimizer_copies'))
     reqs = [{'op': 'optimize', 'existing': existing, 'copies': copies,
